@@ -209,6 +209,9 @@ def run_server(kconfig, sdkconfig, sdkconfig_rename, default_version=MAX_PROTOCO
                 # V1 response, invisible items have value None
                 for k in (k for (k, v) in visible_diff.items() if not v):
                     values_diff[k] = None
+                # ... so an item that becomes visible again needs its value re-sent, even if unchanged
+                for k in (k for (k, v) in visible_diff.items() if v and k in after):
+                    values_diff[k] = after[k]
                 response = {"version": 1, "values": values_diff, "ranges": ranges_diff}
             else:
                 # V2+ response, separate visibility values
